@@ -84,6 +84,15 @@ type Limits struct {
 	// Determinism turns the run into the C19 check: every state is rebuilt from
 	// scratch and its key and output hash must equal those obtained incrementally.
 	Determinism bool
+	// ValidateEvery: every n-th complete D-DFS execution is re-run from scratch (0 = default 10).
+	ValidateEvery int
+}
+
+func (l Limits) validateEvery() int64 {
+	if l.ValidateEvery > 0 {
+		return int64(l.ValidateEvery)
+	}
+	return 10
 }
 
 // Replay builds a fresh world and applies the path; it returns the world and the
@@ -96,6 +105,19 @@ func Replay(sc *Scenario, mf MonitorFactory, path []Event) (*World, *StepRec) {
 		rec = w.Apply(ev)
 	}
 	return w, rec
+}
+
+// replayCheck is Replay that also reports the first violation met on the way.
+func replayCheck(sc *Scenario, mf MonitorFactory, path []Event) (*World, []*Violation, int) {
+	w := NewWorld(sc, mf())
+	w.runPrefix()
+	for i, ev := range path {
+		rec := w.Apply(ev)
+		if len(rec.Violations) > 0 {
+			return w, rec.Violations, i + 1
+		}
+	}
+	return w, nil, len(path)
 }
 
 // defaultChoice is the deterministic default scheduler: pending local work first
@@ -326,8 +348,16 @@ func BFS(sc *Scenario, mf MonitorFactory, lim Limits) *Result {
 					states[si].live = nil
 					if w == nil || fi%32 == 0 || lim.Determinism {
 						path := pathOf(states, si)
-						wr, _ := Replay(sc, mf, path)
+						wr, vs, at := replayCheck(sc, mf, path)
 						lr++
+						if len(vs) > 0 {
+							hmu.Lock()
+							for _, v := range vs {
+								detViol = append(detViol, &Found{V: v, Scenario: sc.Name, Path: path[:at]})
+							}
+							hmu.Unlock()
+							continue
+						}
 						if k := wr.Key(false); k != states[si].key || (lim.Determinism && wr.Out != states[si].out) {
 							if lim.Determinism {
 								hmu.Lock()
